@@ -207,6 +207,14 @@ fn capacity_probe<const M: usize>(t: &mut Tally, r: &mut Rng) {
 /// The same key objects asked for several regions and services in a row, and for the first pair again: every answer is the
 /// chain's (a memo keyed by less than all of secret, date, region and service would show).
 fn chain_sequence(t: &mut Tally, r: &mut Rng, secret: &str, date: NaiveDate) {
+    let guarded = catch_unwind(AssertUnwindSafe(|| chain_sequence_inner(t, r, secret, date)));
+    if guarded.is_err() {
+        let (m, l) = take_panic();
+        viol(t, "derivation", "sequence/panic", format!("a derivation sequence on shared key objects panicked: {} at {}", m, l), J::obj().set("secret", J::s(secret)));
+    }
+}
+
+fn chain_sequence_inner(t: &mut Tally, r: &mut Rng, secret: &str, date: NaiveDate) {
     let ds = date.format("%Y%m%d").to_string();
     let Ok(s) = KSecretKey::from_str(secret) else {
         return;
